@@ -8,7 +8,7 @@
 From Coq Require Import NArith ZArith List Bool String.
 Import ListNotations.
 From Molli Require Import Model.UKV Model.MiniPy Model.Backend Model.MiniPyB Gen.UKVCode Gen.BackendCode
-  Proofs.UKVBase Proofs.UKVCode Proofs.BackendCode Proofs.BackendSession.
+  Proofs.UKVBase Proofs.UKVCode Proofs.BackendCode Proofs.BackendMode Proofs.BackendSession.
 Local Open Scope string_scope.
 Local Open Scope N_scope.
 
@@ -98,7 +98,7 @@ Theorem C04_code_reading_enter : forall fuel s f b hh1 hh2 bb0 rest,
   bheld s = None ->
   let '(s', o) := bexec fuel reading_enter_prog s in
   let '(f', b', r) := b_begin_r f b in
-  o = BONormal /\ r = BOk /\ BRep s' f' b' /\ bheld s' = Some false.
+  o = BONormal /\ r = BOk /\ BRep s' f' b' /\ bheld s' = Some false /\ ((has_inner s = true -> has_mode s) -> has_mode s').
 Proof. exact reading_enter_code. Qed.
 Print Assumptions C04_code_reading_enter.
 
@@ -109,7 +109,8 @@ Theorem C04_code_writing_enter : forall fuel s f b hh1 hh2 bb0 rest,
   bheld s = None ->
   let '(s', o) := bexec fuel writing_enter_prog s in
   let '(f', b', r) := b_begin_w f b in
-  o = bout_of_res r /\ BRep s' f' b' /\ bheld s' = (if ro b then None else Some true).
+  o = bout_of_res r /\ BRep s' f' b' /\ bheld s' = (if ro b then None else Some true) /\
+  ((has_inner s = true -> has_mode s) -> has_inner s' = true -> has_mode s').
 Proof. exact writing_enter_code. Qed.
 Print Assumptions C04_code_writing_enter.
 
@@ -128,6 +129,22 @@ Theorem C04_code_writing_exit : forall fuel s f b,
   o = bout_of_res r /\ BRep s' f' b' /\ bheld s' = None.
 Proof. exact writing_exit_code. Qed.
 Print Assumptions C04_code_writing_exit.
+
+(* Entry and exit compose -- a whole reading session on ANY backend state whose UKVFile (if it has one) carries a mode "r"/"a":
+   what the exit part needs is what the entry part leaves (Proofs/BackendMode.v: begin_read / begin_write establish the mode
+   attribute: the constructor assigns it, a reopen assigns `mode or self.mode`, nothing else on the way does). *)
+Theorem C04_code_reading_session : forall fuel s f b hh1 hh2 bb0 rest,
+  (List.length f < fuel)%nat -> BRep s f b ->
+  f = (mk_header hh1 hh2 bb0 ++ rest)%list -> List.length hh1 = 16%nat -> len hh2 < 65536 -> len bb0 < 4294967296 ->
+  (has_uk b = false -> uk b = h0) -> (forall k, last (uk b) = Some k -> lookup (toc (uk b)) k <> None) ->
+  bheld s = None -> (has_inner s = true -> has_mode s) ->
+  let '(s1, o1) := bexec fuel reading_enter_prog s in
+  let '(s2, o2) := bexec fuel reading_exit_prog s1 in
+  let '(f1, b1, _) := b_begin_r f b in
+  let '(f2, b2, _) := b_end_r f1 b1 in
+  o1 = BONormal /\ o2 = BONormal /\ BRep s2 f2 b2 /\ bheld s2 = None /\ st b2 = SIdle.
+Proof. exact reading_session_code. Qed.
+Print Assumptions C04_code_reading_session.
 
 (* put / get / flush and everything they call leave the UKVFile's mode attribute and the lock alone (decided on the
    translated terms, so re-established from the source on every run) *)
